@@ -1072,7 +1072,10 @@ func (u *Unit) scanContractWritesAt(c *Contract, ws *writeSet, call *ssa.CallCom
 			vals[i] = u.evalStable(u.scanEntry, a)
 		} else {
 			// loop-variant argument: a placeholder; if a modifies target turns out to depend on it we give up below
-			vals[i] = u.namedFreshValue(a.Type(), fmt.Sprintf("scan_unstable_%d", i))
+			// unique per call site: the same name with another sort at another call gave ill-sorted terms (cvc5 rejected
+			// every query of the unit)
+			u.ctx.freshN++
+			vals[i] = u.namedFreshValue(a.Type(), fmt.Sprintf("scan_unstable_%d_%d", i, u.ctx.freshN))
 		}
 	}
 	off := 0
